@@ -70,6 +70,10 @@ def _names(expr, lossless_only=False):
                 walk(k.value, l2)
             return
         if isinstance(n, ast.Attribute):
+            if isinstance(n.value, ast.Name) and n.value.id == "self":
+                if not (lossless_only and lossy):
+                    out.add("self." + n.attr)  # a field of the (mutable) object is an input of the method
+                return
             walk(n.value, lossy or n.attr in LOSSY_ATTRS)
             return
         if isinstance(n, ast.Name):
@@ -139,9 +143,13 @@ def _param_deps(fnode, enclosing_params):
             for nm in _names(val):
                 if nm in deps:
                     full |= deps[nm][0]
+                elif nm.startswith("self."):
+                    full.add(nm)
             for nm in _names(val, lossless_only=True):
                 if nm in deps:
                     exact |= deps[nm][1]
+                elif nm.startswith("self."):
+                    exact.add(nm)
             cur = deps.get(name, (set(), set()))
             new = (cur[0] | full, cur[1] | exact)
             if new != cur:
@@ -155,6 +163,8 @@ def _expr_deps(expr, deps, lossless):
     for nm in _names(expr, lossless_only=lossless):
         if nm in deps:
             out |= deps[nm][1 if lossless else 0]
+        elif nm.startswith("self."):
+            out.add(nm)
     return out
 
 
@@ -178,8 +188,23 @@ def analyse_module(tree, relpath):
                     tgt, val = st.target.id, st.value
                 if tgt and isinstance(val, (ast.Dict, ast.List, ast.Set, ast.Tuple)) and not (isinstance(val, ast.Tuple) and all(isinstance(e, ast.Constant) and isinstance(e.value, (int, float, str)) for e in val.elts) and val.elts):
                     class_state[tgt] = (node.name, st.lineno)
+    inst_state = set()
+    for node in ast.walk(tree):
+        if isinstance(node, ast.ClassDef):
+            for st in node.body:
+                if isinstance(st, ast.AnnAssign) and isinstance(st.target, ast.Name) and isinstance(st.value, ast.Call) and ast.unparse(st.value.func) in ("field", "dataclasses.field"):
+                    for k in st.value.keywords:
+                        if k.arg == "default_factory" and ast.unparse(k.value) in ("dict", "list", "set", "OrderedDict", "collections.OrderedDict"):
+                            inst_state.add(st.target.id)
+                if isinstance(st, ast.FunctionDef) and st.name in ("__init__", "__post_init__"):
+                    for n in ast.walk(st):
+                        if isinstance(n, ast.Assign) and len(n.targets) == 1 and isinstance(n.targets[0], ast.Attribute) and isinstance(n.targets[0].value, ast.Name) and n.targets[0].value.id == "self" and isinstance(n.value, (ast.Dict, ast.List, ast.Set)) and not getattr(n.value, "keys", getattr(n.value, "elts", [])):
+                            inst_state.add(n.targets[0].attr)
     findings = []
     nfuncs = 0
+
+    def is_inst_state(node):
+        return isinstance(node, ast.Attribute) and isinstance(node.value, ast.Name) and node.value.id == "self" and node.attr in inst_state
 
     def scan(fnode, enclosing_params, qual):
         nonlocal nfuncs
@@ -194,19 +219,20 @@ def analyse_module(tree, relpath):
             if sub_targets:
                 t0 = sub_targets[0]
                 root = _root(t0.value)
-                if root in state or _is_class_state(t0.value, class_state):
+                if root in state or _is_class_state(t0.value, class_state) or is_inst_state(t0.value):
                     target, key, val = ast.unparse(t0.value), t0.slice, n.value
             elif isinstance(n, ast.Expr) and isinstance(n.value, ast.Call) and isinstance(n.value.func, ast.Attribute):
                 c = n.value
                 root = _root(c.func.value)
-                if (root in state or _is_class_state(c.func.value, class_state)) and c.func.attr == "setdefault" and len(c.args) == 2:
+                if (root in state or _is_class_state(c.func.value, class_state) or is_inst_state(c.func.value)) and c.func.attr == "setdefault" and len(c.args) == 2:
                     target, key, val = ast.unparse(c.func.value), c.args[0], c.args[1]
                 elif (root in state or _is_class_state(c.func.value, class_state)) and c.func.attr in ("append", "add", "extend", "insert"):
                     target, key, val = ast.unparse(c.func.value), ast.Constant(None), c.args[-1] if c.args else None
             if target is not None and val is not None:
                 vdeps = _expr_deps(val, deps, False)
                 kdeps = _expr_deps(key, deps, True)
-                missing = sorted(vdeps - kdeps)
+                own = {"self." + a for a in inst_state} | {"self"}
+                missing = sorted((vdeps - kdeps) - own)
                 if missing:
                     findings.append(MemoFinding(qual, n.lineno, target, missing, f"value stored under key `{ast.unparse(key)[:60]}`"))
                 continue
